@@ -566,7 +566,7 @@ RsAddW(t) ==
 SsRest(t) ==
   /\ pc[t] = "ss_rest" /\ last' = <<"SsRest", t>>
   /\ sysst' = "dead" /\ node' = [x \in NodeIds |-> NoNode]
-  /\ viol' = IF \E q \in TestPids : RunFlag(q) THEN viol \cup {"AliveAfterSystemStop"} ELSE viol
+  /\ viol' = IF \E q \in TestPids : RunFlag(q) /\ (psn[q] < pre[q] \/ InPS(q)) THEN viol \cup {"AliveAfterSystemStop"} ELSE viol
   /\ Done(t)
   /\ UNCHANGED <<counter, lifev, dwv, tl, stv, fl, dlv, terms, owed, wit>>
 
